@@ -180,6 +180,9 @@ class RungeKuttaIntegrator(TableauIntegrator, abc.ABC):
             timestep, (self.dTime, self.dState) = self.step(rhs, initial_time, initial_state, constants,
                                                             current_timestep)
         except (*D.linear_algebra_exceptions, ValueError):
+            if not self.is_implicit:
+                # only the implicit stage solve has a high-precision mode: re-running an explicit step could only hide a failure of the user's function
+                raise
             self._requires_high_precision = True
             timestep, (self.dTime, self.dState) = self.step(rhs, initial_time, initial_state, constants,
                                                             current_timestep)
@@ -205,6 +208,8 @@ class RungeKuttaIntegrator(TableauIntegrator, abc.ABC):
                         timestep, (self.dTime, self.dState) = self.step(rhs, initial_time, initial_state, constants,
                                                                              timestep if D.ar_numpy.abs(timestep) < D.ar_numpy.abs(current_timestep) else current_timestep)
                     except (*D.linear_algebra_exceptions, ValueError):
+                        if not self.is_implicit:
+                            raise
                         self._requires_high_precision = True
                         timestep, (self.dTime, self.dState) = self.step(rhs, initial_time, initial_state, constants,
                                                                              timestep if D.ar_numpy.abs(timestep) < D.ar_numpy.abs(current_timestep) else current_timestep)
